@@ -107,6 +107,9 @@ fn success_values(dom: Dom, thorough: bool) -> Vec<i64> {
 pub fn values(w: &Wrapper, thorough: bool) -> Vec<i64> {
     let mut v: Vec<i64> = (1..=4095).map(|e| -e).collect();
     v.extend(success_values(w.dom, thorough));
+    if w.ebusy_retry_documented {
+        v.push(EBUSY_LONG);
+    }
     v
 }
 
@@ -126,13 +129,26 @@ fn forced(v: i64) -> usize {
 /// After three -EBUSY answers the kernel lets the dup succeed with this descriptor.
 const EBUSY_THEN: i64 = 5;
 const EBUSY_ROUNDS: usize = 3;
+/// Pseudo-value (outside every real result) for the wrappers with the documented EBUSY retry: the race lasts long
+/// - 1500 EBUSY answers in a row - before the dup succeeds. Whatever the wrapper does in the end must decode the
+/// last answer it got.
+pub const EBUSY_LONG: i64 = -1_000_016;
+const EBUSY_LONG_ROUNDS: usize = 1500;
+
+fn ebusy_rounds(value: i64) -> Option<usize> {
+    match value {
+        v if v == -EBUSY => Some(EBUSY_ROUNDS),
+        EBUSY_LONG => Some(EBUSY_LONG_ROUNDS),
+        _ => None,
+    }
+}
 
 fn plan_for(w: &Wrapper, value: i64) -> Vec<Rule> {
     let forever = Rule { nr: None, nth: None, action: Action::ForceRet(forced(value)), times: GUARDED_FOREVER };
-    if w.ebusy_retry_documented && value == -EBUSY {
-        // a correct retry loop terminates: EBUSY three times, then success
+    if let (true, Some(rounds)) = (w.ebusy_retry_documented, ebusy_rounds(value)) {
+        // a correct retry loop terminates: EBUSY three (or 1500) times, then success
         return vec![
-            Rule { nr: None, nth: None, action: Action::ForceRet(forced(-EBUSY)), times: EBUSY_ROUNDS },
+            Rule { nr: None, nth: None, action: Action::ForceRet(forced(-EBUSY)), times: rounds },
             Rule { nr: None, nth: None, action: Action::ForceRet(forced(EBUSY_THEN)), times: GUARDED_FOREVER },
         ];
     }
@@ -214,20 +230,22 @@ pub fn check_case(w: &Wrapper, value: i64) -> CaseResult {
     };
 
     // ---- how often was the call issued
-    let ebusy_case = w.ebusy_retry_documented && value == -EBUSY;
-    let effective = if ebusy_case {
+    let rounds = if w.ebusy_retry_documented { ebusy_rounds(value) } else { None };
+    let ebusy_case = rounds.is_some();
+    let effective = if let Some(rounds) = rounds {
         // Documented exception: either no retry (one call, Err(EBUSY)) or a retry that stops as
         // soon as the kernel stops answering EBUSY. The result must decode the LAST answer.
         rep.class("dup-ebusy");
-        if ncalls == 0 || ncalls > EBUSY_ROUNDS + 1 {
+        if ncalls == 0 || ncalls > rounds + 1 {
             return Err(Failure::new(
                 format!("{name}|call-count|EBUSY retry did not stop at the first non-EBUSY answer"),
-                format!("{name}: answers -EBUSY x{EBUSY_ROUNDS} then {EBUSY_THEN}: {ncalls} calls issued, result {} [rusl/src/{file}]", show(&driven)),
+                format!("{name}: answers -EBUSY x{rounds} then {EBUSY_THEN}: {ncalls} calls issued, result {} [rusl/src/{file}]", show(&driven)),
             ));
         }
         rep.class_if(ncalls > 1, "dup-ebusy-retried");
         rep.class_if(ncalls == 1, "dup-ebusy-not-retried");
-        if ncalls <= EBUSY_ROUNDS {
+        rep.class_if(rounds > 1000, "dup-ebusy-race-lasting-1500-answers");
+        if ncalls <= rounds {
             -EBUSY
         } else {
             EBUSY_THEN
